@@ -27,7 +27,7 @@ import traceback
 import sfc_models.equation_solver
 from sfc_models.equation import EquationBlock, Equation
 from sfc_models.equation_parser import EquationParser
-from sfc_models.utils import Logger, LogicError
+from sfc_models.utils import Logger, LogicError, replace_token_from_lookup
 
 
 class EconomicObject(object):
@@ -371,6 +371,10 @@ class Model(EconomicObject):
             lookup[alias] = sector.GetVariableName(varname)
         for sector in self.GetSectors():
             sector._ReplaceAliases(lookup)
+        # Model-level (global) equations may also have been written with temporary aliases.
+        if len(lookup) > 0:
+            self.GlobalVariables = [(var, replace_token_from_lookup(eqn, lookup).strip(), desc)
+                                    for var, eqn, desc in self.GlobalVariables]
 
     def LogInfo(self, generate_full_codes=True, ex=None):  # pragma: no cover
         """
